@@ -60,6 +60,26 @@ def c15_2(ctx):
         facts[n] = dict(test=test, outer_iter=outer_iter, rec_args=[N(a) for a in rec.args], flatten='sum(' in U(rb[0].value) and U(rb[0].value).rstrip().endswith(', [])'),
                         leaf=N(rl[0].value), node=top[-1])
         ctx.count(1, f.where())
+    # the three functions must also agree on WHAT a branch is: the default branch types, wherever each function gets them from
+    def default_types(f):
+        for st in f.body:
+            if isinstance(st, ast.Assign) and U(st.targets[0]) == f.params[1]:
+                v = st.value
+                if isinstance(v, ast.Call) and call_name(v) == '_tree_types':
+                    g = ctx.repo.fn('_dict:_tree_types')
+                    rr = returns_of(g.node)
+                    v = rr[-1].value if rr else None
+                if isinstance(v, ast.IfExp) and isinstance(v.body, ast.Tuple):
+                    return sorted(U(e) for e in v.body.elts), st
+        return None, None
+    dts = {n: default_types(f) for n, f in fns.items()}
+    ctx.count(3)
+    for n, (dt_, st) in dts.items():
+        if dt_ is None:
+            raise AnalysisError('default branch types of %s not found' % n)
+        if dt_ != ['Dict', 'dict', 'dictattr']:
+            ctx.fail(fns[n], st, 'the default branch types of %s are %s: exactly dict, Dict and dictattr are branches for all three functions, or their results no longer line up (a Dict branch reported as one leaf)' % (n, dt_),
+                     witness='tree_items(Dict(a = 1)) vs tree_keys(Dict(a = 1))')
     ref = facts['tree_items']
     t = fns['tree_items'].params[0]
     if ref['test'] != NS('type(%s) in types' % t):
